@@ -1,6 +1,7 @@
 (** Property C14 — the theorems the check counts as obligations.  Nothing but
     statements closed by [exact] and [Print Assumptions]. *)
-From HS Require Import Base.Prelude C14.Model C14.LsmProofs C14.SeqProofs C14.ConcProofs C14.KvTxnModel C14.KvTxnProofs C14.BtModel C14.BtProofs C14.BtRep C14.BtIns C14.BtOps.
+From HS Require Import Base.Prelude C14.Model C14.LsmProofs C14.SeqProofs C14.ConcProofs C14.KvTxnModel C14.KvTxnProofs C14.BtModel C14.BtProofs C14.BtRep C14.BtIns C14.BtOps
+  Gen.MemtableGen C14.MemTie.
 Local Open Scope Z_scope.
 
 (** LSM tree, sequential operations: after ANY sequence of put/delete (any
@@ -132,3 +133,38 @@ Print Assumptions c14_btree_delete_reports.
 Theorem c14_btree_overlap_refuted : ~ bt_overlap_statement.
 Proof. exact bt_overlap_refuted. Qed.
 Print Assumptions c14_btree_overlap_refuted.
+
+(* ---------------- code level: storage/memtable.py as regenerated by py2coq ---------------- *)
+
+(** Memtable.put_sync / get_sync / contains / size / is_full, regenerated from
+    components/storage/memtable.py on every run (Gen/MemtableGen.v), against the key-sorted table the
+    LSM model keeps as its memtable: under the representation relation [mem_rep] (same lookups through
+    any value encoding [venc], same size; the code's dict is insertion ordered, the model's table key
+    sorted) put_sync is the model's [sset] and reports "full" exactly when the model's size reaches the
+    threshold, and the reads return what the model table holds.  The empty memtable represents []. *)
+Theorem c14_code_memtable_refines_model : forall (venc : sval -> Z) (m : Memtable) t k v,
+  mem_rep venc (Memtable__data m) t ->
+  (let '(m', full) := Memtable_put_sync m k (venc v) in
+   mem_rep venc (Memtable__data m') (C14.Model.sset k v t)
+   /\ full = (C14.Model.zlen (C14.Model.sset k v t) >=? Memtable__size_threshold m)
+   /\ Memtable__size_threshold m' = Memtable__size_threshold m)
+  /\ (snd (Memtable_get_sync m k) = option_map venc (C14.Model.assoc k t)
+      /\ Memtable__data (fst (Memtable_get_sync m k)) = Memtable__data m
+      /\ Memtable_contains m k = match C14.Model.assoc k t with Some _ => true | None => false end
+      /\ Memtable_size m = C14.Model.zlen t
+      /\ Memtable_is_full m = (C14.Model.zlen t >=? Memtable__size_threshold m))
+  /\ mem_rep venc [] [].
+Proof.
+  intros venc m t k v H.
+  exact (conj (tie_put_sync venc m t k v H) (conj (tie_mem_reads venc m t k H) (mem_rep_empty venc))).
+Qed.
+Print Assumptions c14_code_memtable_refines_model.
+
+(** The translated Memtable alone: after ANY sequence of put_sync calls on an empty memtable, get_sync
+    returns the value of the LAST put under that key (None for a key never written) and contains agrees. *)
+Theorem c14_code_memtable_read_latest : forall thr l k,
+  let m := puts (mkMemtable thr [] 0 0 0 0 0) l in
+  snd (Memtable_get_sync m k) = last_put k l None
+  /\ Memtable_contains m k = match last_put k l None with Some _ => true | None => false end.
+Proof. exact code_memtable_read_latest. Qed.
+Print Assumptions c14_code_memtable_read_latest.
